@@ -157,7 +157,8 @@ def structToJson (w : World) (c : ClassDef) (reqOrder : List String) : Json :=
   | .struct o fields defaults =>
     Json.mkObj [("decl", declToJson (.struct o fields defaults)),
                 ("order", strsJ (fields.map (·.1))), ("immFields", strsJ (sortStr o.immFields)),
-                ("defOrder", strsJ o.defOrder), ("accepts", strsJ (sortStr o.accepts))]
+                ("defOrder", strsJ o.defOrder), ("accepts", strsJ (sortStr o.accepts)),
+                ("wf", Json.bool (Bridge.wf c))]
   | _ => .null
 
 /-- exception classes of every failing step of `cls(**kw)` (collect-all view): which of several
